@@ -747,6 +747,8 @@ type File struct {
 	IndexCodec uint64
 	Index      []IndexRecord
 	IndexRaw   []byte
+	// padding bytes that are not zero were seen (not an error: the format does not define padding content)
+	DataPaddingNonZero, IndexPaddingNonZero bool
 }
 
 // DecodeFile strictly decodes a complete CARv1 or CARv2 file: pragma, header arithmetic,
@@ -764,9 +766,11 @@ func DecodeFile(f []byte, zeroLenAsEOF bool) (*File, error) {
 		if h.DataOffset > uint64(len(f)) || h.DataSize > uint64(len(f))-h.DataOffset {
 			return nil, fmt.Errorf("refcar: payload window [%d,+%d) outside file of %d", h.DataOffset, h.DataSize, len(f))
 		}
+		// The content of padding is not defined by the format (go-car writes holes, i.e. zeros): it is
+		// recorded, not judged.
 		for i := uint64(PragmaSize + V2HeaderSize); i < h.DataOffset; i++ {
 			if f[i] != 0 {
-				return nil, fmt.Errorf("refcar: non-zero data padding at %d", i)
+				out.DataPaddingNonZero = true
 			}
 		}
 		out.PayloadRaw = f[h.DataOffset : h.DataOffset+h.DataSize]
@@ -787,7 +791,7 @@ func DecodeFile(f []byte, zeroLenAsEOF bool) (*File, error) {
 		}
 		for i := end; i < h.IndexOffset; i++ {
 			if f[i] != 0 {
-				return nil, fmt.Errorf("refcar: non-zero index padding at %d", i)
+				out.IndexPaddingNonZero = true
 			}
 		}
 		out.HasIndex = true
